@@ -9,6 +9,7 @@ use crate::{
 	Error, Result,
 };
 /// Database migration.
+use fs2::FileExt;
 use std::path::Path;
 
 const COMMIT_SIZE: usize = 10240;
@@ -52,16 +53,8 @@ pub fn migrate(from: &Path, mut to: Options, overwrite: bool, force_migrate: &[u
 	// In place the path set in `to` is ignored: the columns are re-populated in a private, fresh
 	// directory of the source. A database that lives at the path left in `to` is not touched.
 	let staging_dir = from.join(OVERWRITE_STAGING_PATH);
-	let remove_staging_dir = || -> Result<()> {
-		if std::fs::metadata(&staging_dir).is_ok() {
-			std::fs::remove_dir_all(&staging_dir).map_err(|e| {
-				Error::Migration(format!("Error removing overwrite staging dir: {e:?}"))
-			})?;
-		}
-		Ok(())
-	};
 	if overwrite {
-		remove_staging_dir()?;
+		remove_private_dir(&staging_dir)?;
 		to.path = staging_dir.clone();
 	}
 	let mut dest = Db::open_or_create_in_version(&to, source_meta.version)?;
@@ -138,14 +131,7 @@ pub fn migrate(from: &Path, mut to: Options, overwrite: bool, force_migrate: &[u
 			drop(source);
 			let mut tmp_dir = from.to_path_buf();
 			tmp_dir.push(OVERWRITE_TMP_PATH);
-			let remove_tmp_dir = || -> Result<()> {
-				if std::fs::metadata(&tmp_dir).is_ok() {
-					std::fs::remove_dir_all(&tmp_dir).map_err(|e| {
-						Error::Migration(format!("Error removing overwrite tmp dir: {e:?}"))
-					})?;
-				}
-				Ok(())
-			};
+			let remove_tmp_dir = || remove_private_dir(&tmp_dir);
 			remove_tmp_dir()?;
 			std::fs::create_dir_all(&tmp_dir).map_err(|e| {
 				Error::Migration(format!("Error creating overwrite tmp dir: {e:?}"))
@@ -177,7 +163,24 @@ pub fn migrate(from: &Path, mut to: Options, overwrite: bool, force_migrate: &[u
 	// The last batches are processed while the handle shuts down.
 	dest.close()?;
 	if overwrite {
-		remove_staging_dir()?;
+		remove_private_dir(&staging_dir)?;
+	}
+	Ok(())
+}
+
+/// Removes a directory the migration keeps for itself inside the source, with all its content.
+/// It may be a complete database directory (the staging database of an interrupted migration):
+/// it is removed under its own lock, a handle that is alive on it makes the call fail.
+fn remove_private_dir(dir: &Path) -> Result<()> {
+	if std::fs::metadata(dir).is_ok() {
+		let lock_file = try_io!(std::fs::OpenOptions::new()
+			.create(true)
+			.read(true)
+			.write(true)
+			.open(dir.join("lock")));
+		lock_file.try_lock_exclusive().map_err(Error::Locked)?;
+		std::fs::remove_dir_all(dir)
+			.map_err(|e| Error::Migration(format!("Error removing {dir:?}: {e:?}")))?;
 	}
 	Ok(())
 }
